@@ -418,8 +418,11 @@ class LexicalParent(HasLabel, Generic[ChildType], ABC):
 
 
 def _ensure_path_is_not_cyclic(parent, child: Lexical) -> None:
-    if isinstance(parent, Lexical) and parent.lexical_path.startswith(
-        child.lexical_path + child.lexical_delimiter
+    if parent is child or (
+        isinstance(parent, Lexical)
+        and parent.lexical_path.startswith(
+            child.lexical_path + child.lexical_delimiter
+        )
     ):
         raise CyclicPathError(
             f"{parent.label} cannot be the parent of {child.label}, because its "
